@@ -110,8 +110,25 @@ def check_circuit(c, tree, label: str, st) -> Tuple[List[dict], str]:
         labels_used = [e.get_label() for e in all_el if e.get_label()]
         free = {str(s) for s in expr.free_symbols} - {"f"}
         if len(set(labels_used)) == len(labels_used) and len(free) != npar and not (expr.has(sp.zoo) or expr.has(sp.nan)):
-            viol("to_sympy|variable-count", f"symbolic expression has {len(free)} variables besides f, the circuit has {npar} parameters",
-                 f"variables={sorted(free)[:12]}")
+            # a parameter the simulated impedance does not depend on at all (e.g. a sub-circuit that a particular configuration of the
+            # general transmission line shorts out) has no variable; count the parameters that matter
+            fz = np.array([0.5, 50.0, 5e3])
+            Z0 = c.get_impedances(fz)
+            influential = 0
+            for e_ in all_el:
+                for k_, v_ in e_.get_values().items():
+                    try:
+                        e_.set_values(**{k_: (v_ * 1.37 if v_ != 0 else 0.37)})
+                        Z1 = c.get_impedances(fz)
+                        if not np.allclose(Z1, Z0, rtol=1e-12, atol=0):
+                            influential += 1
+                    except Exception:
+                        influential += 1
+                    finally:
+                        e_.set_values(**{k_: v_})
+            if len(free) != influential or len(free) > npar:
+                viol("to_sympy|variable-count", f"symbolic expression has {len(free)} variables besides f, the circuit has {npar} parameters"
+                     + (f" ({influential} of which influence the impedance)" if influential != npar else ""), f"variables={sorted(free)[:12]}")
     try:
         ex2 = c.to_sympy(substitute=True)
         free2 = {str(s) for s in ex2.free_symbols} - {"f"}
@@ -241,6 +258,21 @@ def _chunk(cases) -> dict:
     return {"n": n, "nontrivial": nontrivial, "outcomes": outcomes, "violations": list(viols.values()), "samples": [sample] if sample else []}
 
 
+def _tlm_configurations() -> Dict[str, dict]:
+    from vf.checks.c02 import tlm_entry
+
+    out = {}
+    for x1, x2 in itertools.product(("fin", "short"), repeat=2):
+        for za, zb in itertools.product(("fin", "short", "open"), repeat=2):
+            e = tlm_entry(x1, x2, za, zb, "RC", "Q", 2.0)
+            out[e["name"]] = e
+    return out
+
+
+TLM_CFG = _tlm_configurations()
+EXTRA.update(TLM_CFG)
+
+
 def cases(thorough: bool) -> List[dict]:
     out: List[dict] = []
     names = list(PALETTE)
@@ -259,6 +291,10 @@ def cases(thorough: bool) -> List[dict]:
                 [tuple(pal[(i + j * (1 + s)) % len(pal)] for j in range(n)) for i in range(len(pal)) for s in range(2)]
             for fill in fills:
                 out.append({"tree": t, "fill": list(fill)})
+    # every open/short/finite configuration of the general transmission line, alone and nested: one variable per parameter
+    for name in TLM_CFG:
+        out.append({"tree": ("L",), "fill": [name]})
+        out.append({"tree": ("S", ("L",), ("P", ("L",), ("S", ("L",), ("L",)))), "fill": ["R", "C", "R", name]})
     from vf.checks.c16 import EDITS
 
     for i, c_ in enumerate(out):
@@ -278,7 +314,7 @@ def run(ctx) -> None:
     thorough = ctx.tier == "thorough"
     setup()
     ctx.rule = ("every canonical skeleton with <= 3 leaves over a 9-entry palette {R, C, L, La, Q, W, Zarc, Tlm, Tlm with nested (RC) and a nested "
-                "Tlm}, the object-only shapes over 5 entries, 4 leaves (5 in thorough) over 5 (3) entries (rotating fillings in quick, full product "
+                "Tlm}, all 36 open/short/finite configurations of the general transmission line (alone and nested), the object-only shapes over 5 entries, 4 leaves (5 in thorough) over 5 (3) entries (rotating fillings in quick, full product "
                 "in thorough), and 19 labels (incl. labels that equal the suffix of a parameter name, e.g. 'B' next to Y_B) (every first-character class, CDC and LaTeX metacharacters) at every position of four small circuits; "
                 "only circuits that simulate are judged. Oracles: to_sympy / to_sympy(substitute) / to_latex / to_circuitikz (default, running, "
                 "hide_labels) / to_drawing / to_stack return; variable counts; balanced begin/end; one drawn component per element of the "
